@@ -125,6 +125,19 @@ def run(out: Outcome) -> None:
     # enumerate-all branch (fewer permutations exist than requested)
     one(out, rng, "EMD", EMD, {}, [0.1, 0.9], [0.5, 1.4], 100, "conservative", lines, expect, jobs=(1, 3))
     one(out, rng, "PSI", PSI, {"num_bins": 4}, [0.1, 0.9, 0.3], [0.5, 1.4], 200, "exact", lines, expect)
+    # repeatability for every fixed random_state, 0 included (a falsy seed is still a seed)
+    for rs in (0, 1, 12345):
+        runs = []
+        for _ in range(2):
+            cb = PermutationTestDistanceBased(num_permutations=12, random_state=rs, num_jobs=1, name="perm")
+            det = EMD(callbacks=[cb])
+            det.fit(X=np.array([0.1, 0.5, 0.9, 1.3, 0.2, 0.7]))
+            _, logs = det.compare(X=np.array([0.4, 1.1, 1.8, 0.6, 2.2]))
+            runs.append(([float(v) for v in logs["perm"]["permuted_statistics"]], float(logs["perm"]["p_value"])))
+            np.random.random(3)
+        if runs[0] != runs[1]:
+            out.violation(f"permutation test with random_state={rs} is not repeatable", {"random_state": rs})
+        out.case({"repeatable": rs})
     # formula grid through the model
     grid = [(b, m, mt) for m in (1, 5, 20) for b in sorted({0, 1, m // 2, m}) if b <= m for mt in (2, 6, 24, 120)]
     for (b, m, mt) in grid:
